@@ -138,6 +138,94 @@ theorem Pres.bindDims (ds : List Name) (dims : List Nat) (env : Env) : Pres (bin
     | nil => simp only [Never.Src.bindDims]; apply Pres.bind (Pres.alloc _); intro c; exact ih _ _
     | cons n ns => simp only [Never.Src.bindDims]; apply Pres.bind (Pres.alloc _); intro c; exact ih _ _
 theorem Pres.arrDims (l : Loc) : Pres (arrDims l) := by unfold Never.Src.arrDims; pres_core
+/-- `pres_core` with extra closing terms tried first (lemmas about helper functions that `apply Pres.bind`
+would otherwise unfold) -/
+syntax "pres_with" "[" term,* "]" : tactic
+macro_rules
+  | `(tactic| pres_with [$ts,*]) => do
+    let alts ← ts.getElems.mapM fun t => `(tactic| exact $t)
+    `(tactic| repeat (first
+      | (first $[| $alts:tactic]*)
+      | exact Pres.pure _
+      | exact Pres.throwE _
+      | exact Pres.stopM _
+      | exact Pres.stuck _
+      | exact Pres.oof
+      | exact Pres.alloc _
+      | exact Pres.load _
+      | exact Pres.store _ _
+      | exact Pres.emit _
+      | exact Pres.logClo _
+      | assumption
+      | apply Pres.bind
+      | apply Pres.tryCatch
+      | intro _
+      | split))
+
+theorem Pres.allocInts (is : List Int) : Pres (allocInts is) := by
+  induction is with
+  | nil => simp only [Never.Src.allocInts]; pres_core
+  | cons i is ih => simp only [Never.Src.allocInts]; pres_core
+theorem Pres.rngBounds (o : Loc) : Pres (rngBounds o) := by
+  unfold Never.Src.rngBounds; pres_with [Pres.getInts _]
+theorem Pres.sliceRangeM (a b c d : Int) : Pres (sliceRangeM a b c d) := by unfold Never.Src.sliceRangeM; pres_core
+theorem Pres.composeDims (r1 r2 : List (Int × Int)) : Pres (composeDims r1 r2) := by
+  induction r1 generalizing r2 with
+  | nil => cases r2 <;> simp only [Never.Src.composeDims] <;> pres_core
+  | cons p r1 ih =>
+    obtain ⟨a, b⟩ := p
+    cases r2 with
+    | nil => simp only [Never.Src.composeDims]; pres_core
+    | cons q r2 =>
+      obtain ⟨c, d⟩ := q
+      simp only [Never.Src.composeDims]
+      have := ih r2
+      pres_with [Pres.sliceRangeM _ _ _ _]
+theorem Pres.allocRng (ps : List (Int × Int)) : Pres (allocRng ps) := by
+  unfold Never.Src.allocRng; pres_with [Pres.allocInts _]
+theorem Pres.sliceOf (v : Val) (rb : Loc) : Pres (sliceOf v rb) := by
+  unfold Never.Src.sliceOf; pres_with [Pres.rngBounds _, Pres.composeDims _ _, Pres.allocRng _]
+theorem Pres.rangePositions (rs : List (Int × Int)) (is : List Int) : Pres (rangePositions rs is) := by
+  induction rs generalizing is with
+  | nil => cases is <;> simp only [Never.Src.rangePositions] <;> pres_core
+  | cons p rs ih =>
+    obtain ⟨a, b⟩ := p
+    cases is with
+    | nil => simp only [Never.Src.rangePositions]; pres_core
+    | cons i is =>
+      simp only [Never.Src.rangePositions]
+      have := ih is
+      pres_with [Pres.sliceRangeM _ _ _ _]
+theorem Pres.rangeDeref (r : Option Loc) (idx : List Int) : Pres (rangeDeref r idx) := by
+  unfold Never.Src.rangeDeref; pres_with [Pres.rngBounds _, Pres.rangePositions _ _, Pres.allocInts _]
+theorem Pres.sliceDeref (r : Option Loc) (idx : List Int) : Pres (sliceDeref r idx) := by
+  unfold Never.Src.sliceDeref; pres_with [Pres.rngBounds _, Pres.rangePositions _ _, Pres.arrDeref _ _]
+theorem Pres.rngLoopInit (ro : Loc) : Pres (rngLoopInit ro) := by
+  unfold Never.Src.rngLoopInit; pres_with [Pres.getInt _]
+theorem Pres.slcLoopInit (so : Loc) : Pres (slcLoopInit so) := by
+  unfold Never.Src.slcLoopInit; pres_with [Pres.rngLoopInit _]
+theorem Pres.rngElem (ao : Option Loc) (cur : Int) : Pres (rngElem ao cur) := by
+  unfold Never.Src.rngElem; pres_with [Pres.arrDeref _ _]
+theorem Pres.pipeArgs (l : Loc) : Pres (pipeArgs l) := by unfold Never.Src.pipeArgs; pres_core
+theorem Pres.rngCells (o : Loc) : Pres (rngCells o) := by unfold Never.Src.rngCells; pres_core
+theorem Pres.slcDimCells (so : Loc) : Pres (slcDimCells so) := by
+  unfold Never.Src.slcDimCells; pres_with [Pres.rngBounds _, Pres.allocInts _]
+theorem Pres.bindDimsCells (ds : List Name) (m : M (List Loc)) (env : Env) (h : Pres m) : Pres (bindDimsCells ds m env) := by
+  unfold Never.Src.bindDimsCells; pres_core
+theorem Pres.bindDimsArr (ds : List Name) (l : Loc) (env : Env) : Pres (bindDimsArr ds l env) := by
+  unfold Never.Src.bindDimsArr; pres_with [Pres.arrDims _, Pres.bindDims _ _ _]
+theorem Pres.bindDimsOf (ds : List Name) (l : Loc) (env : Env) : Pres (bindDimsOf ds l env) := by
+  unfold Never.Src.bindDimsOf
+  have h1 := fun o => Pres.bindDimsCells ds (Never.Src.rngCells o) env (Pres.rngCells o)
+  have h2 := fun o => Pres.bindDimsCells ds (Never.Src.slcDimCells o) env (Pres.slcDimCells o)
+  have h3 := Pres.bindDimsArr ds l env
+  apply Pres.bind (Pres.load _); intro v
+  split
+  · exact h1 _
+  · exact h2 _
+  · exact Pres.stopM _
+  · exact Pres.stopM _
+  · exact h3
 theorem Pres.bindParams (ps : List Param) (args : List Loc) (env : Env) : Pres (bindParams ps args env) := by
   induction ps generalizing args env with
   | nil => simp only [Never.Src.bindParams]; pres_core
@@ -149,8 +237,7 @@ theorem Pres.bindParams (ps : List Param) (args : List Loc) (env : Env) : Pres (
       apply Pres.bind (Pres.convCell _ _); intro l'
       split
       · exact ih _ _
-      · apply Pres.bind (Pres.arrDims _); intro dims
-        apply Pres.bind (Pres.bindDims _ _ _); intro env2
+      · apply Pres.bind (Pres.bindDimsOf _ _ _); intro env2
         exact ih _ _
 theorem Pres.fillFuncs (cells : List Loc) (fs : List Func) (l : Loc) : Pres (fillFuncs cells fs l) := by
   induction fs generalizing l with
